@@ -16,7 +16,7 @@ def fhex(x):
 def build(mesh):
     from femio import FEMData, FEMAttribute, FEMElementalAttribute
     nodes = FEMAttribute('NODE', np.array(mesh['node_ids'], dtype=np.int64),
-                         np.array(mesh['coords'], dtype=np.float64))
+                         np.array(mesh['coords'], dtype=getattr(np, mesh.get('coord_dtype', 'float64'))))
     blocks = {}
     for ty, eids, conn in mesh['blocks']:
         if ty == 'polygon' and len({len(c) for c in conn}) > 1:
@@ -75,6 +75,33 @@ def run_task(t):
             out = out[:, 0]
         return {'ids': [int(i) for i in fd.elements.ids], 'values': arr(out),
                 'types': [str(x) for x in fd.elements.types]}
+    if kind == 'history':
+        fd = build(t['mesh'])
+        out = []
+        for c in t['calls']:
+            try:
+                e = c['entry']
+                if e == 'areas':
+                    v = fd.calculate_element_areas(mode=c['mode'], raise_negative_area=c['raise'],
+                                                   return_abs_area=c['abs'])
+                elif e == 'volumes':
+                    v = fd.calculate_element_volumes(mode=c['mode'], raise_negative_volume=c['raise'],
+                                                     return_abs_volume=c['abs'])
+                elif e == 'volumes_default':
+                    v = fd.calculate_element_volumes()
+                elif e == 'metrics':
+                    v = fd.calculate_element_metrics(raise_negative_metric=c['raise'],
+                                                     return_abs_metric=c['abs'])
+                else:
+                    v = fd.calculate_element_normals(mode=c['mode'])
+            except (NotImplementedError, ValueError, KeyError) as ex:
+                out.append({'error': type(ex).__name__})
+                continue
+            v = np.asarray(v, dtype=np.float64)
+            if v.ndim == 2 and v.shape[1] == 1:
+                v = v[:, 0]
+            out.append({'ids': [int(i) for i in fd.elements.ids], 'values': arr(v)})
+        return {'results': out}
     if kind == 'motion':
         fd = build(t['mesh'])
         if t['pop_node'] and 'NODE' in fd.nodal_data:
